@@ -3,6 +3,7 @@ package c02
 
 import (
 	"fmt"
+	"reflect"
 
 	"go.pennock.tech/tabular"
 
@@ -22,6 +23,13 @@ func loc(r, c int) tabular.CellLocation { return tabular.CellLocation{Row: r, Co
 
 // Sweep compares everything observable with the model.
 func Sweep(t tabular.Table, m *gen.Model, step int) *ev.Violation {
+	// column handles first, before anything else is asked of the table: they exist for 0..column count whatever
+	// has or has not been called in the meantime
+	for n := 0; n <= m.NCols(); n++ {
+		if h := t.Column(n); h == nil || reflect.ValueOf(h).IsNil() {
+			return ev.V("Column(%d) is nil right after the operation (asked before NColumns or anything else), the widest header/row has %d cells", n, m.NCols())
+		}
+	}
 	nrows := t.NRows()
 	if nrows != len(m.Rows) {
 		return ev.V("NRows()=%d after %d rows/separators were added", nrows, len(m.Rows))
